@@ -8,3 +8,4 @@ Definition k_flow_writer_exit : pfun :=
     SAssign ["data"] (PCall "_pack_asn1" [(PAttr (PAttr (PName "self") "_tag") "tag_class"); (PAttr (PAttr (PName "self") "_tag") "is_constructed"); (PAttr (PAttr (PName "self") "_tag") "tag_number"); (PAttr (PName "self") "_data")]);
     SExpr (PMeth "extend" (PAttr (PAttr (PName "self") "_parent") "_data") [(PName "data")])
   ] |}.
+Definition k_flow_writer_exit_defaults : list (string * pexp) := [("exc_type", PNone); ("exc_val", PNone); ("exc_tb", PNone)].
